@@ -369,7 +369,40 @@ func genTwoRunReset(seed int64, n int, tier string) []Script {
 				tags = append(tags, "resetdata")
 			}
 			suf := suffixOps(r, rest, B)
-			if margin {
+			if (kind == "DHP" || kind == "BDHP") && margin && r.Intn(2) == 0 {
+				// The last hashed position of a segment: its stored value may
+				// include bytes behind the data. Part A ends with a gram G and
+				// is skipped with Parse(nil) (the dictionary is filled up to
+				// the end of the data); part B repeats G: a new parser finds
+				// the entry, and so must a reset one, whatever lies behind A.
+				// (with InputLen2 = 3 the position three bytes before the end is
+				// hashed with a 4-byte value, and the next Parse re-hashes only
+				// the last two positions)
+				cfg["InputLen1"], cfg["InputLen2"] = 2, 3
+				G := make([]byte, 3)
+				for j := range G {
+					G[j] = byte('p' + r.Intn(4))
+				}
+				a := make([]byte, 10+r.Intn(40))
+				for j := range a {
+					a[j] = byte('a' + r.Intn(3))
+				}
+				a = append(a, G...)
+				b := []byte{byte('a' + r.Intn(3)), byte('a' + r.Intn(3))}
+				b = append(b, G...)
+				for j := 0; j < 5+r.Intn(10); j++ {
+					b = append(b, byte('a'+r.Intn(3)))
+				}
+				suf = []map[string]any{{"op": "write", "p": B2(a)}}
+				for j := 0; j < 1+len(a)/int(maxI(1, int(num(cfg["BlockSize"])))); j++ {
+					suf = append(suf, map[string]any{"op": "parsenil"})
+				}
+				suf = append(suf, map[string]any{"op": "write", "p": B2(b)})
+				for j := 0; j < 2+len(b)/int(maxI(1, int(num(cfg["BlockSize"])))); j++ {
+					suf = append(suf, map[string]any{"op": "parse", "flags": 0})
+				}
+				tags = append(tags, "margin-lastgram")
+			} else if margin {
 				op := pumpOp(r, rest, B, "mixed")
 				op["chunk"], op["mode"], op["pearly"], op["pprobe"] = 3+r.Intn(18), "write", 100, 0
 				op["pnil"], op["pntl"] = pickInt(r, 0, 30), pickInt(r, 0, 0, 50)
